@@ -137,12 +137,16 @@ def run(ctx):
         rows = [[float(Fraction(ctx.rng.randint(-128, 128), 8)) for _ in range(n)] for _ in range(T)]
         for _ in range(ctx.rng.randint(1, 4)):
             rows[ctx.rng.randrange(T)][ctx.rng.randrange(n)] = [float("nan"), float("inf"), float("-inf")][i % 3]
+        # FINITE readings so large that the quadratic form overflows (a "missing value" sentinel of 1e300 or DBL_MAX, a
+        # saturated channel): IEEE status flags are raised in some modes and not in others - the values must not differ
+        for _ in range(ctx.rng.randint(1, 3)):
+            rows[ctx.rng.randrange(T)][ctx.rng.randrange(n)] = ctx.rng.choice([1e300, -1e300, 1.7976931348623157e308, 1e155, -3e200])
         ll_special.add(len(lljobs))
         lljobs.append({"W": 1, "thetas": [[[float(v) for v in r] for r in t] for t in thetas],
                        "mus": [[float(v) for v in m] for m in mus],
                        "data": {"data": [v for row in rows for v in row], "shape": [T, n], "layout": "C"}})
         ll_exact.append((thetas, mus, rows))
-        ctx.count("ll_tables_with_nan_or_inf")
+        ctx.count("ll_tables_with_nan_inf_or_overflowing_values")
     runs = [] if ctx.replay is not None else [tu.gen_config(ctx.rng) for _ in range(3 if ctx.quick() else 12)]
     if runs:
         runs[0]["beta"] = 5          # an integer-typed switching cost first …
@@ -226,7 +230,7 @@ def run(ctx):
                             (math.isfinite(v) and math.isfinite(w) and abs(v - w) <= 1e-9 * max(1.0, abs(w)))
                         if not same:
                             ctx.violation("impl-violation", f"mode {name}: table[{p_},{k}] = {v} but the interpreted kernel gives {w} "
-                                          "for a window holding a non-finite sample", {"ll": i, "mode": name}, {"site": "ll-mode"})
+                                          "for a window holding a non-finite or overflowing sample", {"ll": i, "mode": name}, {"site": "ll-mode"})
                             break
                     else:
                         continue
